@@ -11,5 +11,5 @@ import (
 func TestMain(m *testing.M) { hk.Main(m, "C07") }
 
 func TestS3(t *testing.T) {
-	hk.RunSub(t, hk.Sub[gsim.Plan]{Name: "s3/finalizer-order", Quick: 1200, Thorough: 12000, Gen: gsim.Gen(FinCtrls()), Run: Run, Journal: true})
+	hk.RunSub(t, hk.Sub[gsim.Plan]{Name: "s3/finalizer-order", Quick: 4000, Thorough: 24000, Gen: gsim.Gen(FinCtrls()), Run: Run, Journal: true})
 }
